@@ -222,6 +222,11 @@ def rule_cache(ctx, rule_single, rule_negative):
         else:
             good = getattr(res, "name", None) == "Err" and contains_id(res, d["error"]) and not d["cached"]
             msg = "when instantiation fails get_library yields %r and the instance cache holds %s; expected the error and nothing cached" % (res, d["cached"])
+            if good and d["registered"] != 1:
+                good = False
+                msg = "when the instantiation of a REGISTERED library fails, its factory is no longer registered afterwards (%d factories " \
+                      "left): the next import of the same library on this interpreter reports `library not found` instead of the same " \
+                      "error — the outcome of an import depends on an earlier failed attempt" % d["registered"]
         ctx.inst(rule, key, {"instantiations": n_inst, "cached": len(d["cached"])})
         ctx.oblige(bool(good))
         if not good:
@@ -335,6 +340,8 @@ def body_failure_table(fb):
         libdef = [Val("library-name"), [decl("ImportDeclaration", I1), decl("Begin", [first, s_last])]]
         selfv = fresh_fields(fb)
         selfv[fields.index("env")] = Val("importer-env")
+        if "import_end" in fields:
+            selfv[fields.index("import_end")] = False
         E = Val("the-error")
         ev = []
 
@@ -367,8 +374,42 @@ def body_failure_table(fb):
         except (absint.Stuck, absint.Loop) as e:
             rows.append((scenario, {"stuck": str(e)}))
             continue
-        rows.append((scenario, {"result": res, "events": list(ev), "error": E}))
+        rows.append((scenario, {"result": res, "events": list(ev), "error": E,
+                                "import_end_after": selfv[fields.index("import_end")] if "import_end" in fields else None}))
     return f, rows
+
+
+def rule_state_after_body_failure(ctx, rule):
+    """a library whose import / body fails while the importer is still in its import declarations: the importer is as it was — in
+    particular it still accepts import declarations (the flag that ends the import part is not left set by the failed load)"""
+    fb = ctx.fb()
+    from .ctx import where_of
+    try:
+        f, rows = body_failure_table(fb)
+    except mir.AnchorMissing as e:
+        ctx.undecided(rule, "library-failure/state", str(e))
+        return 0
+    n = 0
+    for scenario, d in rows:
+        key = "library-failure/%s/import-part-still-open" % scenario
+        if "stuck" in d:
+            ctx.undecided(rule, key, "cannot follow eval_library_definition (%s)" % d["stuck"], where_of(f))
+            continue
+        after = d["import_end_after"]
+        if after is None:
+            continue
+        n += 1
+        good = after is False
+        ctx.inst(rule, key, {"import_end_after": repr(after)})
+        ctx.oblige(good)
+        if after is True:
+            ctx.report(rule, key, "after a library whose %s fails was loaded during the import part of a program, the interpreter is left "
+                       "with its import part closed: every later (import ...) on the same interpreter is rejected although the program "
+                       "never left its import declarations" % {"import-fails": "import declaration", "body-expression-fails": "body expression",
+                                                               "body-definition-fails": "body definition"}[scenario], where_of(f))
+        elif not good:
+            ctx.undecided(rule, key, "the flag that ends the import part is %r after the failed load" % (after,), where_of(f))
+    return n
 
 
 def rule_body_failures(ctx, rule):
